@@ -26,6 +26,7 @@ def load_prop(pid):
 
 
 def find_clause(mod, name):
+    name = name.split('~')[0]         # a case found by the coverage-guided engine ('<clause>~fuzz') replays through the clause itself
     for c in mod.CLAUSES:
         if c.name == name:
             return c
